@@ -20,9 +20,12 @@ PROP = {
             "multi-column; ALTER COLUMN SET NOT NULL), 1–3 committed rows before or after the constraint is added, and 4–10 steps: "
             "insert of a fresh / a live duplicate / a NULL key / a NULL into NOT NULL, delete, re-insert after a committed delete, "
             "non-key update (also to NULL), session blocks ending in commit / rollback / drop, batches (also failing on their last "
-            "statement); at most one finding feature per case: UPDATE of a key column (away from and to a key), two open transactions "
-            "inserting the same key, delete + re-insert of a key inside one transaction, a rolled-back key update, key updates from "
-            "NULL / inside a multi-column key, multi-row INSERT failing on its last row. After every commit the table is read "
+            "statement), two open transactions inserting the same key and ending in commit / rollback / drop; at most one finding "
+            "feature per case: UPDATE of a key column (away from and to a key, also concurrently with an INSERT of that key), "
+            "delete + re-insert of a key inside one transaction, a rolled-back key update, key updates from "
+            "NULL / inside a multi-column key, multi-row INSERT failing on its last row. A second family (60 / 600 cases): a table with TWO unique keys (two UNIQUE "
+            "columns, two unique indexes, or mixed), 4–8 rows with NULL in one key and a value in the other (NULL on either side), "
+            "then an INSERT repeating every non-NULL key value. After every commit the table is read "
             "(`db sel u`) and checked by `constraintsHold` on both sides (PROPFAIL). Non-trivial (`nt`) = some statement or commit of "
             "the case has to be decided by a constraint; distinct = distinct case line.",
     "assumptions": [
@@ -31,7 +34,9 @@ PROP = {
         "the catalog is static in the model: a constraint added by ALTER / CREATE UNIQUE INDEX is known to the model from the start, "
         "and generated setups never add a constraint that the existing rows violate (that failure path of ALTER belongs to C15)",
         "the specification refuses a commit when the committed database would violate a constraint (two open transactions inserting the "
-        "same key): this is the model's design decision; the code has no such check (finding uniqueNotRecheckedAtCommit)",
+        "same key): this is the model's design decision; the code (since fix ed56cf9) compares the keys a transaction INSERTed with those "
+        "inserted by transactions that committed since its begin, which agrees with the specification for INSERTs over a sound index and "
+        "differs otherwise (finding commitChecksInsertedKeysOnly, modelled exactly)",
         "VACUUM is not part of these histories (C13)",
     ],
     "partial": "",
@@ -48,8 +53,9 @@ TEXT = {
     "design_ref": "DESIGN.md §5 C07",
     "note": "Holds for the specification model. Listed findings with exact attribution: the unique index is not maintained when an UPDATE "
             "changes a key column (pinned by test_index_maintained_on_update: old key blocked, new key accepted twice), one index entry per "
-            "key (delete + re-insert + rollback loses the live row's entry), nothing re-checked at commit (two open transactions insert the "
-            "same key), rolled-back UPDATEs stay (pinned), statements not atomic inside a session. Four defects repaired by fix: commits: "
+            "key (delete + re-insert + rollback loses the live row's entry), the check at commit covers INSERTed keys only (an UPDATE to a key "
+            "and a concurrent INSERT of it both commit), rolled-back UPDATEs stay (pinned). Seven defects repaired by fix: commits: write sets were never recorded (lost updates), two open transactions inserting the same key "
+            "both committed, a statement failing after its first row kept the rows before it, "
             "constraints added by ALTER TABLE were never enforced and PRIMARY KEY columns stayed nullable, SET NOT NULL accepted existing "
             "NULLs, NULL in a UNIQUE column was refused with a type error, UPDATE of a non-key column of an indexed table failed.",
     "technique": "Lean 4 invariant + refinement proof, decidable constraint checker on observed contents, differential correspondence",
